@@ -279,9 +279,10 @@ def layer_keywords():
 
 
 # (the last two: the byte-order-mark character U+FEFF / ZERO WIDTH NO-BREAK SPACE and U+FFFE as ordinary text INSIDE a label)
-# (then: NUL and another C0 control inside a label - in UTF-8 they are the bytes 00 and 01, which say nothing about the file's encoding; a Malayalam
+# (first: text ending in / consisting of a backslash, and a backslash before a quote - the format knows no backslash escapes;
+# then: NUL and another C0 control inside a label - in UTF-8 they are the bytes 00 and 01, which say nothing about the file's encoding; a Malayalam
 # letter U+0D0A and U+0D05 before a line feed - in UTF-16 their bytes contain the pair 0D 0A although the text holds no CR LF)
-UNICODE_FORMS = ("ab\ufeffcd", "x\ufffe", "a\x00b", "x\x01y", "\u0d0a", "\u0d0a\u0d0a", "ab\u0d05\nq", "e\u0301", "a\u0303b", "\u1112\u1161\u11ab", "\u212b", "\u2126", "\ufb01", "\u00e9", "e\u0323\u0302", "x\u0301\u0301", "\U0001f600\u200d",
+UNICODE_FORMS = ("C:\\", "a\\", "\\", "x\\\"y", "ab\ufeffcd", "x\ufffe", "a\x00b", "x\x01y", "\u0d0a", "\u0d0a\u0d0a", "ab\u0d05\nq", "e\u0301", "a\u0303b", "\u1112\u1161\u11ab", "\u212b", "\u2126", "\ufb01", "\u00e9", "e\u0323\u0302", "x\u0301\u0301", "\U0001f600\u200d",
                  "I\u0307", "\u01c5", "\u00df", "\u1e9e", "A\u030a", "\u00c5")
 
 
